@@ -41,17 +41,31 @@ def run_demo(demo, tree):
     return p.returncode, p.stdout.decode()[-600:]
 
 
+def cmd_reeval(names):
+    """Re-run the recorded checks of already stored changes against the current checks."""
+    if not names:
+        names = sorted(os.listdir(os.path.join(HERE, "seeded")))
+    for name in names:
+        mp = os.path.join(HERE, "seeded", name, "meta.json")
+        if not os.path.exists(mp):
+            continue
+        m = json.load(open(mp))
+        props = sorted(set(list(m.get("checks", {}).keys()) + [m["breaks_property"]]))
+        cmd_eval([None, None, name, "--breaks", m["breaks_property"], "--props", ",".join(props)])
+
+
 def cmd_eval(argv):
     src, which, name = argv[0], argv[1], argv[2]
     breaks = argv[argv.index("--breaks") + 1]
     props = argv[argv.index("--props") + 1].split(",")
     d = os.path.join(HERE, "seeded", name)
     os.makedirs(d, exist_ok=True)
-    shutil.copy(os.path.join(src, "patch%s.diff" % which), os.path.join(d, "patch.diff"))
-    shutil.copy(os.path.join(src, "demo%s.py" % which), os.path.join(d, "demo.py"))
-    notes = os.path.join(src, "notes.md")
-    if os.path.exists(notes):
-        shutil.copy(notes, os.path.join(d, "agent_notes.md"))
+    if src is not None:
+        shutil.copy(os.path.join(src, "patch%s.diff" % which), os.path.join(d, "patch.diff"))
+        shutil.copy(os.path.join(src, "demo%s.py" % which), os.path.join(d, "demo.py"))
+        notes = os.path.join(src, "notes.md")
+        if os.path.exists(notes):
+            shutil.copy(notes, os.path.join(d, "agent_notes.md"))
     patch = os.path.join(d, "patch.diff")
     demo = os.path.join(d, "demo.py")
     clean = scratch_copy()
@@ -82,7 +96,7 @@ def cmd_eval(argv):
     mp = os.path.join(d, "meta.json")
     if os.path.exists(mp):
         old = json.load(open(mp))
-    for k in ("needs_to_manifest", "what", "test_suite"):
+    for k in ("needs_to_manifest", "what", "test_suite", "round"):
         if k in old:
             meta[k] = old[k]
     json.dump(meta, open(mp, "w"), indent=1, sort_keys=True)
@@ -131,3 +145,5 @@ if __name__ == "__main__":
         cmd_eval(sys.argv[2:])
     elif sys.argv[1] == "tests":
         cmd_tests(sys.argv[2:])
+    elif sys.argv[1] == "reeval":
+        cmd_reeval(sys.argv[2:])
